@@ -358,3 +358,92 @@ Proof.
     + exfalso. destruct KN as [KN|KN]; [congruence|].
       apply Exists_exists in Ex as (m & In_m & Ty). unfold no_chal in KN. rewrite Forall_forall in KN. exact (KN m In_m Ty).
 Qed.
+
+(* ---------- part 4: every event of an endpoint keeps "CONNECTED -> key" ---------- *)
+
+Lemma not_connected_inv c : c_status c <> CONNECTED -> inv c.
+Proof. unfold inv; intros; contradiction. Qed.
+
+Lemma send_inv e c p r k : inv c -> inv (fst (send e c p r k)).
+Proof.
+  intros I. unfold send. destruct (negb _); [exact I|].
+  destruct (len p >? e_max_payload e); cbn.
+  - destruct (_ >? _); cbn; [exact I|].
+    eapply same_st_inv; [|exact I].
+    eapply same_st_trans; [|split; [split; [|split]|]; cbn; reflexivity].
+    eapply same_st_trans; [|apply send_frags_same]. fields.
+  - eapply same_st_inv; [apply send_type_same|exact I].
+Qed.
+
+Lemma client_update_inv c now : inv c -> inv (fst (client_update c now)) /\ same c (fst (client_update c now)).
+Proof.
+  intros I. unfold client_update.
+  case_all; (split; [first [exact I | apply not_connected_inv; cbn; discriminate] | fields]).
+Qed.
+
+Lemma client_tick_inv e c now r : inv c -> inv (fst (client_tick e c now r)).
+Proof.
+  intros I. unfold client_tick.
+  destruct (client_update_inv c now I) as [I0 _]. destruct (client_update c now) as [c0 o0]; cbn in I0.
+  destruct (status_eqb (c_status c0) DROPPED); [exact I0|].
+  assert (X : exists c1 o1, match r with
+              | RxNone => (c0, [])
+              | RxBadHeader er => (c0, [ORaise er])
+              | RxDgram d orcs => let '(c', o') := recv c0 now d orcs in
+                   (c', filter (fun x => match x with ORet _ => false | _ => true end) o')
+              end = (c1, o1) /\ inv c1).
+  { destruct r; try (do 2 eexists; split; [reflexivity|exact I0]).
+    destruct (recv c0 now d orcs) as [c' o'] eqn:R.
+    destruct (recv_facts _ _ _ _ _ _ R) as (_ & _ & C & _). do 2 eexists; split; [reflexivity|auto]. }
+  destruct X as (c1 & o1 & -> & I1).
+  destruct (raised o1); [exact I1|].
+  destruct (_ >? _); [|exact I1].
+  pose proof (build_packet_same e c1 now) as B. destruct (build_packet e c1 now) as [c2 pk]; cbn in B.
+  destruct (check_timeout_same false c2 now) as [T _]. destruct (check_timeout false c2 now) as [c3 o3]; cbn in *.
+  exact (same_st_inv _ _ (same_st_trans _ _ _ B T) I1).
+Qed.
+
+Lemma server_tick_inv e c now : inv c -> inv (fst (server_tick e c now)).
+Proof.
+  intros I. unfold server_tick. destruct (_ >? _); [|exact I].
+  pose proof (build_packet_same e c now) as B. destruct (build_packet e c now) as [c2 pk]; cbn in B.
+  destruct (check_timeout_same true c2 now) as [T _]. destruct (check_timeout true c2 now) as [c3 o3]; cbn in *.
+  exact (same_st_inv _ _ (same_st_trans _ _ _ B T) I).
+Qed.
+
+Lemma step_inv e c x : inv c -> inv (fst (step e c x)).
+Proof.
+  intros I. destruct x; cbn.
+  - apply send_inv; auto.
+  - apply client_tick_inv; auto.
+  - apply server_tick_inv; auto.
+  - destruct (recv c now d orcs) eqn:R. destruct (recv_facts _ _ _ _ _ _ R) as (_ & _ & C & _). auto.
+  - apply not_connected_inv. unfold disconnect. cbn. discriminate.
+  - repeat match goal with |- context [match ?x with _ => _ end] => destruct x end; exact I.
+  - apply not_connected_inv. unfold client_hello. cbn. discriminate.
+  - exact I.
+  - exact I.
+Qed.
+
+Lemma run_inv e xs : forall c, inv c -> inv (fst (run e c xs)).
+Proof.
+  induction xs as [|x r IH]; intros c I; cbn; [exact I|].
+  pose proof (step_inv e c x I) as I1. destruct (step e c x) as [c1 o]; cbn in I1.
+  specialize (IH c1 I1). destruct (run e c1 r); cbn in *; exact IH.
+Qed.
+
+Theorem connected_has_key_proof : forall e server xs,
+  let c := fst (run e (conn0 server) xs) in c_status c = CONNECTED -> c_key c <> None.
+Proof. intros e sv xs. apply run_inv. apply not_connected_inv. cbn. discriminate. Qed.
+
+(* handler.connect at the level of one datagram: only an authentic datagram that carries a
+   challenge response, a correct oracle answer for it, and a key that is still there *)
+Theorem connect_needs_authentic_challenge_proof : forall c now d orcs c' o,
+  recv c now d orcs = (c', o) -> In OHandlerConnect o ->
+  c_server c = true /\ c_key c' <> None /\
+  exists k ms, c_key c = Some k /\ authentic k d /\ open_dgram (Some k) d = Ok ms /\
+               Exists (fun m => w_type m = CHALLENGE_RESP) ms.
+Proof.
+  intros c now d orcs c' o R Hin. destruct (recv_facts _ _ _ _ _ _ R) as (_ & _ & _ & D). apply D.
+  apply existsb_exists. exists OHandlerConnect. split; auto.
+Qed.
